@@ -110,6 +110,10 @@ func (vp *baseVoteproof) decodeJSON(b []byte, enc encoder.Encoder) (u baseVotepr
 		}
 	}
 
+	if majority != nil && vp.majority == nil {
+		return u, e.Errorf("majority not found in sign facts")
+	}
+
 	vp.threshold = u.Threshold
 	vp.finishedAt = u.FinishedAt.Time
 	vp.point = u.Point
